@@ -46,7 +46,7 @@ func init() {
 			"outbound dialing (net.Dial) not simulated",
 		},
 		Assumptions: []string{
-			"Go's select among several ready cases is unseedable; the driver issues one send per step and waits for quiescence, never lets virtual time pass while an MConnection has a backlog in runs that use TrySend (bounded-pipe mode), uses only blocking Send in rate-limited runs, and keeps driver instants, flush, ping, pong-timeout and stats periods on non-coinciding offsets; what is recorded (fingerprint, sample, events, probes) depends only on what the property observes - per-channel accepted and delivered sequences, stream contents, handshake verdicts - which is schedule-independent on correct code",
+			"Go's select among several ready cases is unseedable; the driver issues one send per step and waits for quiescence, never lets virtual time pass while an MConnection has a backlog in runs that use TrySend (bounded-pipe regime), uses only blocking Send in the rate-limited and all-defaults regimes (where a sendRoutine returning from a limiter sleep can find send, flush and stats ready together), and keeps driver instants (x.5 ms), flush (x.137 ms), pong-timeout (x.3 ms), ping and stats periods (x.0 ms) on non-coinciding offsets; what is recorded (fingerprint, sample, events, probes, simulated time = planned sleeps only) depends only on what the property observes - per-channel accepted and delivered sequences, stream contents, handshake verdicts - which is schedule-independent on correct code; the number of iterations of wait-until loops (blocked Send, final drain) is deliberately not recorded",
 			"the transport is lossless and ordered (TCP); faults are chunking, back-pressure, timing, and an active man in the middle during the handshake",
 			"ground truth for authentication is by construction: a ledger of every signature made with a private key that exists in the run, and the ephemeral-key bytes each endpoint wrote and was shown; the challenge derivation is never re-implemented by the oracle",
 			"frame tampering after the handshake is an observation only in the compiled-in compress mode (frames carry no authenticator there; the property statement does not claim one); it is an oracle in sealed/raw mode runs",
@@ -55,7 +55,7 @@ func init() {
 		},
 		QuickRuns:      12000,
 		QuickBudget:    55 * time.Second,
-		ThoroughRuns:   130000,
+		ThoroughRuns:   260000,
 		ThoroughBudget: 18 * time.Minute,
 		Run:            Run,
 		MaxProcs:       2,
@@ -173,10 +173,6 @@ func Run(c *kernel.Ctx) {
 		r.mode = wireTypeSealed
 	case 2:
 		r.mode = wireTypeRaw
-	}
-	if r.mode == defMode && defMode != wireTypeCompress {
-		// the compiled-in default changed: still run it, under its own name
-		r.mode = defMode
 	}
 	r.sample["scenario"] = names[scenario]
 	r.sample["frame_mode"] = modeName(r.mode)
